@@ -266,6 +266,21 @@ def seqMaxEncodedLen : List Stage → Nat → Nat
   | [], n => n
   | st :: rest, n => seqMaxEncodedLen rest (if st.maxLen n > n then st.maxLen n else n)
 
+/-- Go: the size of the intermediate buffers of `ByteTransformSequence.Inverse` for a destination of
+    `d` bytes (after the repair of finding F26): `requiredSize = max(len(dst), MaxEncodedLen(len(dst)))`.
+    Every stage that is not skipped writes into a buffer of exactly this size when `len(src) ≤ d`
+    (the destination itself is used only when it already has that size; the source-side buffer is
+    re-sliced / re-allocated to it). -/
+def seqInvBufLen (stages : List Stage) (d : Nat) : Nat := max d (seqMaxEncodedLen stages d)
+
+/-- Go: `ByteTransformSequence.Inverse(src, dst)` with `len(dst) = d ≥ len(src)`: `stages` are the stages
+    with their inverse running into `seqInvBufLen … d` bytes; the result lives in an intermediate buffer
+    and is copied to `dst` only if it fits ("Inverse transform sequence failed" otherwise). -/
+def seqInverseDst (stages : List Stage) (flags : Nat) (src : List Nat) (d : Nat) : Res :=
+  match seqInverse stages flags src with
+  | .error e => .error e
+  | .ok z => if z.length > d then .error "Inverse transform sequence failed" else .ok z
+
 /-! ### skip flags in the block header (io/CompressedStream.go)
 
 `mode0` is the mode byte before the flags are merged: copy bit 0x80, two size bits 0x60, low five
